@@ -1,7 +1,7 @@
 """C03  The result is a well-formed tree over the input with in-bounds spans."""
 from __future__ import annotations
 
-from mdmc import monitors, trees
+from mdmc import core, monitors, trees
 from mdmc.engines import hitx, streams
 from mdmc.props import _engineprop as ep
 
@@ -26,6 +26,8 @@ def describe(tier):
     return {
         "rule": ep.RULE_PREFIX + "Oracle on EVERY node of EVERY tree: root = ('', input, '', 0, len(input), no parent); each node listed "
         "exactly once (identity) by the node its parent pointer names; list(root) equals the identity pre-order walk; 0<=start<=end<=len(parent.value). "
+        "Dedicated sub-structure families (scan level): the encoded/plain PowerShell grammar of C16, the URL grammars and Windows path grammar of C12, xor "
+        "carriers x keys, valid and truncated PE images. "
         "Non-trivial = a tree with at least one node two levels below the root or with decoder-supplied sub-structure (distinct by shape).",
         "bounds": BOUNDS[tier],
         "assumptions": ["scans that raise or hang are counted and left to C01", "fixture keyword directory instead of the 5316 shipped keywords"],
@@ -33,8 +35,89 @@ def describe(tier):
     }
 
 
+SUB = ["ps-enc", "ps-plain", "urlA", "urlB", "win", "xor", "pe"]
+
+
 def plan(tier, seed):
-    return [(tier,) + u for u in ep.plan(BOUNDS[tier])]
+    units = [(tier,) + u for u in ep.plan(BOUNDS[tier])]
+    for kind in SUB:
+        for part in range(8):
+            units.append((tier, "sub", kind, part))
+    return units
+
+
+def sub_inputs(tier, kind, part, nparts=8):
+    """Inputs that make single decoders return pre-assembled sub-structure (URL parts, path parts, xor children, powershell-in-cmd children, PE)."""
+    import itertools
+
+    from mdmc import pegen
+    from mdmc.props import c12, c16
+
+    stride = 5 if (tier == "quick" and kind in ("ps-enc", "urlA")) else 1  # quick: every 5th case of the two largest grammars
+
+    def take(it):
+        for i, x in enumerate(it):
+            if i % (nparts * stride) == part:
+                yield x
+
+    if kind == "ps-enc":
+        for ti in range(len(c16.PS_TOKENS)):
+            for data, *_ in take(c16.ps_enc_cases(tier, ti)):
+                yield data
+    elif kind == "ps-plain":
+        for data, *_ in take(c16.ps_plain_cases()):
+            yield data
+    elif kind == "urlA":
+        gen = (c12.embed(sc + b"://" + ui + h + po + pa + q + f, e) for sc, ui, h, po, pa, q, f, e in
+               itertools.product(c12.SCHEMES[:3], c12.USERINFO, c12.HOSTS, c12.PORTS, (b"", b"/a/../%41"), c12.QUERIES[::2], c12.FRAGS[::2], c12.EMBED[:3]))
+        yield from take(gen)
+    elif kind == "urlB":
+        L = 2 if tier == "quick" else 3
+        gen = (b"see http://u:p@ex%61mple.com:80" + p + q + f + b" now" for p in c12.paths(L) for q in c12.QUERIES for f in c12.FRAGS)
+        yield from take(gen)
+    elif kind == "win":
+        L = 2 if tier == "quick" else 3
+        gen = (pre + prefix + b"\\".join(combo).replace(b"\\\\", b"\\") + b"\\" + fn + suf
+               for prefix in c12.WIN_PREFIX for k in range(1, L + 1) for combo in itertools.product(c12.WIN_SEGS, repeat=k) for fn in c12.WIN_FILES for pre, suf in c12.WIN_EMBED)
+        yield from take(gen)
+    elif kind == "xor":
+        carriers = [b"[System.Convert]::FromBase64String('R1ZASEdWQEg=')", b"FromHexString('4756404803444c4650035256424048')",
+                    b"$b = " + b",".join(b"%d" % (65 + i % 26) for i in range(501))]
+        gen = (pre + c + sp % key for c in carriers for key in (0, 1, 35, 255, 256, 999) for sp in (b" -bxor %d", b"-xor%d") for pre in (b"", b"x = "))
+        yield from take(gen)
+    elif kind == "pe":
+        gen = (pre + pegen.valid_pe(n)[:cut] + suf for n in (1, 2) for cut in (None, 0x3F0, 0x300, 0x250) for pre in (b"", b"x", b"MZ ") for suf in (b"", b" t"))
+        yield from take(gen)
+
+
+def run_sub(rec, tier, kind, part):
+    from mdmc.engines import streams as st
+
+    reg = st.registry()
+    names = _names()
+    last = b""
+    for data in sub_inputs(tier, kind, part):
+        rec.count("evaluations")
+        rec.mark("states", (kind, data))
+        w = {"engine": "stream", "family": "sub:" + kind, "data": data, "depth": 10}
+        try:
+            core.WATCH.serial += 1
+            core.WATCH.armed = True
+            tree, log = trees.iscan(reg, data, 10)
+        except core.Hang:
+            rec.note("scan-hung (reported by C01)")
+            continue
+        except Exception:  # noqa: BLE001
+            rec.note("scan-raised (reported by C01)")
+            continue
+        finally:
+            core.WATCH.armed = False
+        rec.count("traces")
+        rec.count("transitions", len(log.hits))
+        nodes = monitors.c03(rec, tree, data, log, w, len(data), names)
+        _mark(rec, tree, nodes, log, data)
+        last = data
+    rec.sample({"family": "sub:" + kind, "part": part, "last": last})
 
 
 def _mark(rec, tree, nodes, log, key):
@@ -48,16 +131,28 @@ def on_run(rec, run, w, size):
     _mark(rec, run.impl, nodes, run.log, (run.T, run.hits, run.depth, run.mode, run.grouped))
 
 
+_NAMES = None
+
+
+def _names():
+    global _NAMES
+    if _NAMES is None:
+        _NAMES = [getattr(d, "__name__", None) or getattr(getattr(d, "func", None), "__name__", "?") + ":" + str(getattr(d, "args", ["?"])[0])
+                  for d in streams.registry()]
+    return _NAMES
+
+
 def on_case(rec, case):
     rec.count("traces")
     rec.count("transitions", len(case.log.hits))
-    names = [getattr(d, "__name__", None) or getattr(getattr(d, "func", None), "__name__", "?") + ":" + str(getattr(d, "args", ["?"])[0])
-             for d in streams.registry()]
-    nodes = monitors.c03(rec, case.tree, case.data, case.log, case.witness(), case.size, names)
+    nodes = monitors.c03(rec, case.tree, case.data, case.log, case.witness(), case.size, _names())
     _mark(rec, case.tree, nodes, case.log, case.data)
 
 
 def run_unit(unit, rec):
+    if unit[1] == "sub":
+        run_sub(rec, unit[0], unit[2], unit[3])
+        return
     ep.run_unit(unit[1:], rec, BOUNDS[unit[0]], TOTAL, on_run, on_case)
 
 
